@@ -708,3 +708,106 @@ def acc7(cfg):
     res.count('per-class statistics accessors', n)
     res.floor('per-class statistics accessors', 40)
     return res
+
+
+class _NotLinear(Exception):
+    pass
+
+
+def _lin(f, o, env, narrow, depth=0):
+    """linear form of an unsigned size expression over the leaf's size fields: ({var: coef}, const).
+    `narrow` collects the places where the value may exceed the width it is computed or passed in (fields are < 2^32)."""
+    e = f.resolve(o)
+    if not isinstance(e, dict) or depth > 30:
+        raise _NotLinear('expression')
+    k = e.get('k')
+
+    def ub(form):
+        return sum(c * 0xFFFFFFFF for c in form[0].values() if c > 0) + form[1]
+
+    def fit(form, w, what, loc):
+        if w and w < 128 and form[0] and ub(form) >= (1 << w):
+            narrow.append((what, w, loc))
+        return form
+    if k == 'int':
+        return ({}, int(e['v']))
+    if k == 'sizeof':
+        return ({}, int(e['v']))
+    if k == 'member' and isinstance(f.strip_casts(e.get('base')), dict) and f.strip_casts(e['base']).get('k') == 'this':
+        return ({e.get('name'): 1}, 0)
+    if k == 'ref':
+        if e.get('did') in env:
+            return env[e['did']]
+        ci = wsum.const_inits(f)
+        if e.get('vk') == 'local' and e.get('did') in ci:
+            return _lin(f, ci[e['did']], env, narrow, depth + 1)
+        if 'cv' in e:
+            return ({}, int(e['cv']))
+        raise _NotLinear('variable ' + str(e.get('name')))
+    if k == 'cast' or (k == 'initlist' and len(e.get('args', [])) == 1):
+        v = _lin(f, e['sub'] if k == 'cast' else e['args'][0], env, narrow, depth + 1)
+        return fit(v, e.get('w'), 'conversion', e.get('loc'))
+    if k == 'binop' and e.get('op') in ('+', '-'):
+        l, r = _lin(f, e['l'], env, narrow, depth + 1), _lin(f, e['r'], env, narrow, depth + 1)
+        sgn = 1 if e['op'] == '+' else -1
+        co = dict(l[0])
+        for n, c in r[0].items():
+            co[n] = co.get(n, 0) + sgn * c
+        return fit(({n: c for n, c in co.items() if c}, l[1] + sgn * r[1]), e.get('w'), 'addition' if sgn > 0 else 'subtraction', e.get('loc'))
+    if k == 'call' and e.get('cid') is not None:
+        tg = f.callee(e)
+        if tg is not None and tg.blocks and tg.short == 'compute_size' and len(tg.params) == len(e.get('args', [])):
+            sub_env = {}
+            for p_, a in zip(tg.params, e['args']):
+                sub_env[p_['did']] = fit(_lin(f, a, env, narrow, depth + 1), p_.get('w'), 'argument `%s`' % p_.get('name'), e.get('loc'))
+            rets = [x for b, i, x in tg.elements() if x.get('k') == 'return']
+            if len(rets) != 1:
+                raise _NotLinear('compute_size has %d return statements' % len(rets))
+            return _lin(tg, rets[0]['e'], sub_env, narrow, depth + 1)
+        raise _NotLinear('call of ' + str(e.get('name')))
+    raise _NotLinear('node ' + str(k))
+
+
+def acc8(cfg):
+    """ACC-8: the size a leaf reports when it is released is the size it was allocated and accounted with"""
+    res = RuleResult('ACC-8', 'basic_leaf::get_size() - the amount the leaf deleters subtract from the memory-use counter - is the same function of the stored key and value sizes as basic_leaf::compute_size() - the amount allocated and added by make_db_leaf_ptr: sizeof(leaf) - 1 + key_size + value_size, with every intermediate sum computed at a width that holds it (the two fields are 32 bits wide; their sum needs 33): evaluated as linear forms with width tracking')
+    if '-nostats-' in cfg.name:
+        return res
+    n = 0
+    for f in cfg.functions:
+        if not f.blocks or f.short != 'get_size' or not f.cls.startswith('unodb::detail::basic_leaf<'):
+            continue
+        n += 1
+        res.functions.add(f.sig)
+        rets = [x for b, i, x in f.elements() if x.get('k') == 'return']
+        cs = [g for g in cfg.functions if g.blocks and g.cls == f.cls and g.short == 'compute_size']
+        why = None
+        try:
+            if len(rets) != 1 or len(cs) != 1:
+                raise _NotLinear('%d return statements / %d compute_size' % (len(rets), len(cs)))
+            narrow = []
+            got = _lin(f, rets[0]['e'], {}, narrow)
+            g = cs[0]
+            nref = []
+            ref_env = {g.params[0]['did']: ({'key_size': 1}, 0), g.params[1]['did']: ({'value_size': 1}, 0)}
+            gr = [x for b, i, x in g.elements() if x.get('k') == 'return']
+            want = _lin(g, gr[0]['e'], ref_env, nref)
+            if nref:
+                why = 'compute_size itself computes a %s at %d bits, which does not hold key size + value size + header' % (nref[0][0], nref[0][1])
+            elif got != want:
+                why = 'it returns %s, the leaf was allocated and accounted with %s' % (_fmt(got), _fmt(want))
+            elif narrow:
+                why = 'the %s at %s is computed in %d bits: for a key and value whose sizes sum to 2^%d or more it wraps, and the deleter subtracts less than was added' % (narrow[0][0], fileline(narrow[0][2]) if narrow[0][2] else '?', narrow[0][1], narrow[0][1])
+        except _NotLinear as u:
+            res.incompl('ACC-8: %s left the supported expression set: %s' % (sh(f.sig)[:80], u))
+            continue
+        res.ob(why is None, {'rule': 'ACC-8', 'function': sh(f.sig)[:100], 'site': fileline(f.loc), 'form': _fmt(got), 'verdict': 'discharged' if why is None else 'VIOLATION'})
+        if why:
+            res.find(f, f.loc, 'basic_leaf::get_size(): %s - memory use no longer returns to the value it had before the entry was inserted (it must be a function of the key set, zero for an empty index)' % why, key='ACC-8:get_size', config=cfg.name)
+    res.count('leaf size getters', n)
+    res.floor('leaf size getters', 2)
+    return res
+
+
+def _fmt(form):
+    return ' + '.join(['%s%s' % ('' if c == 1 else '%d*' % c, n) for n, c in sorted(form[0].items())] + [str(form[1])])
